@@ -25,19 +25,21 @@ type FSpec struct {
 }
 
 type ChainCfg struct {
-	Entry      string `json:"entry"` // ServeHTTP | Dispatch | Mux | Nested | NestedFilter
-	Router     string `json:"router"`
-	ContEnc    bool   `json:"container_encoding"`
-	ContEncReg bool   `json:"container_encoding_while_registering"` // the switch is flipped to container_encoding before serving
-	RouteEnc   int    `json:"route_encoding"`                       // 0 unset, 1 true, 2 false
-	Provider   string `json:"provider"`
-	WCap       int    `json:"wcap,omitempty"`
-	RCap       int    `json:"rcap,omitempty"`
-	Recover    int    `json:"recover"` // 0 off, 1 default handler, 2 custom handler
-	CustomErr  bool   `json:"custom_service_error_handler"`
-	Flusher    bool   `json:"writer_is_flusher"`
-	Trace      bool   `json:"trace"`
-	LateConfig bool   `json:"container_configured_after_registration"`
+	Entry        string `json:"entry"` // ServeHTTP | Dispatch | Mux | Nested | NestedFilter
+	Router       string `json:"router"`
+	ContEnc      bool   `json:"container_encoding"`
+	ContEncReg   bool   `json:"container_encoding_while_registering"` // the switch is flipped to container_encoding before serving
+	RouteEnc     int    `json:"route_encoding"`                       // 0 unset, 1 true, 2 false
+	ReuseBuilder bool   `json:"one_route_builder_for_both_routes"`
+	RouteEncPost int    `json:"post_route_encoding,omitempty"` // with ReuseBuilder: set on the builder after the GET route was built (0: left as it was)
+	Provider     string `json:"provider"`
+	WCap         int    `json:"wcap,omitempty"`
+	RCap         int    `json:"rcap,omitempty"`
+	Recover      int    `json:"recover"` // 0 off, 1 default handler, 2 custom handler
+	CustomErr    bool   `json:"custom_service_error_handler"`
+	Flusher      bool   `json:"writer_is_flusher"`
+	Trace        bool   `json:"trace"`
+	LateConfig   bool   `json:"container_configured_after_registration"`
 	// Warm: a request is served to each service when only the first WarmCF container filters and
 	// WarmSF / WarmSF2 service filters are registered; the rest is registered afterwards, before the
 	// simulated clients start. Nothing computed for the first request may outlive it.
@@ -442,8 +444,26 @@ func (e *chainEnv) build(encOff bool) (c *restful.Container, outer *restful.Cont
 		}
 		return b
 	}
-	ws.Route(mk(ws.GET("/data/{id}")))
-	ws.Route(mk(ws.POST("/post").Consumes("application/json")))
+	if cfg.ReuseBuilder {
+		// one RouteBuilder for both routes: what was set on it for the first route (function, filters)
+		// carries over, what is set afterwards (method, path, consumes, the POST route's own encoding
+		// override) must not reach back into the route already built
+		b := mk(ws.GET("/data/{id}"))
+		ws.Route(b)
+		b.Method("POST").Path("/post").Consumes("application/json")
+		if !encOff {
+			switch cfg.RouteEncPost {
+			case 1:
+				b.ContentEncodingEnabled(true)
+			case 2:
+				b.ContentEncodingEnabled(false)
+			}
+		}
+		ws.Route(b)
+	} else {
+		ws.Route(mk(ws.GET("/data/{id}")))
+		ws.Route(mk(ws.POST("/post").Consumes("application/json")))
+	}
 	c.Add(ws)
 	// a second service with its own filters: chains of different requests must not mix
 	ws2 := new(restful.WebService).Path("/svc2").Produces("application/json")
@@ -709,6 +729,12 @@ func genChainCfg(tp *sim.Tape, k chainKnobs) *ChainCfg {
 	cfg.Flusher = tp.Bool()
 	cfg.Trace = tp.Chance(300)
 	cfg.LateConfig = tp.Chance(300)
+	if tp.Chance(250) {
+		cfg.ReuseBuilder = true
+		if k.encoding {
+			cfg.RouteEncPost = tp.G(3)
+		}
+	}
 	cfg.Pretty = true
 	ncf := k.maxFilters
 	if k.maxCF > 0 {
